@@ -165,10 +165,10 @@ func vCollect(r ResolveResult, network string, stopAfter int) []Target {
 	return got
 }
 
-// verifC15Targets: symbolic result (<= 2 HTTPS records, thorough 3), network,
+// verifC15Targets: symbolic result (<= 2 HTTPS records), network,
 // early termination; yielded sequence == reference; purity; repeatability.
 func verifC15Targets() {
-	nh := vInt(0, 2+vTier())
+	nh := vInt(0, 2)
 	r := ResolveResult{Port: []uint16{443, 80, 8443, 0}[vInt(0, 2+vTier())]}
 	r.Address = vIPList(2 * vInt(0, 1))
 	r.Additional = map[string][]net.IP{}
